@@ -166,6 +166,33 @@ class TransformationPerformer:
           )
           transformation.tensor_id = trans_info.output_tensor_id
 
+  def _update_signature_outputs(
+      self,
+      tflite_model: schema_py_generated.ModelT,
+      subgraph_id: int,
+      outputs_before: list[int],
+  ):
+    """Keep signature outputs pointing at the (rewired) subgraph outputs.
+
+    Args:
+      tflite_model: source tflite model to be updated
+      subgraph_id: the subgraph a transformation was just applied to
+      outputs_before: the subgraph outputs before the transformation
+
+    Returns:
+      None, update the signature defs of tflite_model in place
+    """
+    subgraph = tflite_model.subgraphs[subgraph_id]
+    for output_before, output_after in zip(outputs_before, subgraph.outputs):
+      if output_before == output_after:
+        continue
+      for signature_def in tflite_model.signatureDefs or []:
+        if signature_def.subgraphIndex != subgraph_id:
+          continue
+        for tensor_map in signature_def.outputs or []:
+          if tensor_map.tensorIndex == output_before:
+            tensor_map.tensorIndex = output_after
+
   def _apply_single_transformation(
       self,
       transformation_inst: qtyping.TensorTransformationInsts,
@@ -210,16 +237,21 @@ class TransformationPerformer:
               original_op_id
           ]
       )
+    subgraph = tflite_model.subgraphs[transformation_inst.subgraph_id]
+    outputs_before = list(subgraph.outputs)
     trans_info = self._transformation_registration[instruction.transformation](
         transformation_utils.TransformationInput(
             instruction.tensor_id,
             tflite_model.operatorCodes,
             tflite_model.buffers,
-            tflite_model.subgraphs[transformation_inst.subgraph_id],
+            subgraph,
             producer,
             consumers,
             instruction.parameters,
         )
+    )
+    self._update_signature_outputs(
+        tflite_model, transformation_inst.subgraph_id, outputs_before
     )
     self._update_instructions(
         transformation_index,
